@@ -10,6 +10,10 @@ result keys (each an outcome, see `outcome`):
    fcfg   = filter_config(make_acl(A, vendor), CommonFormatter, join(t)) re-parsed (optional)
 A case with a "diff" key ([[op, row, children], ...], op in added/removed/affected/moved/unchanged) is run through
 patching.apply_acl_diff instead: {"ok": diff} | {"compile": ...}.
+A case with a "ctext" key (an ACL text) is compiled only: the structure of compile_acl_text(ctext, vendor) is
+returned, {"rules": {"local": [[rule_id, cant_delete, prio, generator_names, children], ...], "global": [...]}}
+(children = the same structure, empty for a %global rule: children is None there; never the regexps) or
+{"err": "parser", "line": n, "row": "..."} | {"err": "validator"} | {"err": "context"} | {"err": "notimpl"} | {"exc"}.
 An outcome is {"ok": tree} | {"uncovered": [row path]} | {"notexcl": [row path], "gens": [...]}
 | {"compile": "NotImplementedError"} | {"exc": "..."}.
 """
@@ -81,9 +85,42 @@ def one_diff(case):
         return {"exc": type(e).__name__ + ":" + str(e)[:300]}
 
 
+def dump_rules(rules):
+    def side(d):
+        out = []
+        for rid, r in d.items():
+            a = r["attrs"]
+            kids = dump_rules(r["children"]) if r["children"] is not None else {"local": [], "global": []}
+            out.append([rid, [bool(x) for x in a["cant_delete"]], int(a["prio"]), [str(x) for x in a["generator_names"]],
+                        kids])
+        return out
+    return {"local": side(rules["local"]), "global": side(rules["global"])}
+
+
+def one_ctext(case):
+    from valkit.common import ValidatorError
+    try:
+        return {"rules": dump_rules(compile_acl(case["ctext"], case["vendor"]))}
+    except tabparser.ParserError as e:
+        m = re.match(r"^Invalid top indention: line (\d+): (.*)$", str(e), re.S)
+        if not m:
+            return {"exc": "ParserError:" + str(e)}
+        return {"err": "parser", "line": int(m.group(1)), "row": m.group(2)}
+    except ValidatorError:
+        return {"err": "validator"}
+    except NotImplementedError:
+        return {"err": "notimpl"}
+    except ValueError:
+        return {"err": "context"}
+    except Exception as e:  # noqa
+        return {"exc": type(e).__name__ + ":" + str(e)[:300]}
+
+
 def one(case):
     if "diff" in case:
         return one_diff(case)
+    if "ctext" in case:
+        return one_ctext(case)
     v = case["vendor"]
     t = to_odict(case["tree"])
     a = case["acl"]
